@@ -48,6 +48,12 @@ let parse_byteop op =
   else if starts op "c" then BoConsume (nat_of_int (int_of_string (after op "c")))
   else failwith ("bad byte op " ^ op)
 
+let parse_ctx s =
+  List.map (fun it ->
+    let h = unhex (String.sub it 1 (String.length it - 1)) in
+    if it.[0] = 'S' then CtxSps h else CtxPps h)
+    (List.filter (fun x -> x <> "-") (nonempty (split ',' s)))
+
 let arg args i = if i < List.length args then List.nth args i else ""
 
 let dispatch cmd args =
@@ -67,6 +73,9 @@ let dispatch cmd args =
         (List.filter (fun s -> s <> "-") (nonempty (split ',' (arg args 0)))) in
       let pol = List.map (fun c -> if c = 'I' then Ignore else Buffer) (List.of_seq (String.to_seq (arg args 1))) in
       cmd_accum frs pol
+  | "sps" -> cmd_sps (parse_src (arg args 0))
+  | "pps" -> cmd_pps (parse_ctx (arg args 0)) (parse_src (arg args 1))
+  | "slice" -> cmd_slice (parse_ctx (arg args 0)) (parse_src (arg args 1))
   | "decode_nal" -> cmd_decode_nal (unhex (arg args 0))
   | _ -> Modelrun2.dispatch cmd args
 
